@@ -9,9 +9,8 @@ PID = "C18"
 RULE = ("seeded (file tree, runtime tree) pairs as in C09 plus a second untargeted tree in the file; for each pair one append or "
         "append-over (whole root or targeted) is first run to count its h5py mutations (create group / dataset / attribute, move, "
         "link, delete), then re-run on a fresh copy of the file once for EVERY mutation index k with that mutation made to raise; "
-        "after each failing save: is every pre-existing node still at its path, individually readable and equal to before, are "
-        "other trees untouched, are scratch groups left; plus naturally failing saves (unsupported metadata value or name collision "
-        "deep in the runtime tree); non-trivial = >= 10 failure points; distinct by recipe hash")
+        "and three naturally failing whole-root appends per pair (a root metadata entry with an unsupported value behind entries the file already has; the same deep in the tree; a new child named like a dataset of its parent's body); after each failing save: is every pre-existing node still at its path, individually readable and equal to before, are "
+        "other trees untouched, are scratch groups left; non-trivial = >= 10 failure points; distinct by recipe hash")
 TIME_BUDGET = {"quick": 400, "thorough": 2400}
 
 
@@ -25,9 +24,12 @@ def cases(tier, seed):
         ap = c09.gen_append(r, F, R, X)
         while ap["src"] == "X":
             ap = c09.gen_append(r, F, R, X)
-        natural = None
-        if r.random() < 0.25:
-            natural = r.choice(["bad_metadata", "collision"])
+        # naturally failing saves are tried for every pair (see `attempt`); the root of the file tree mostly carries metadata,
+        # so that an append meets entries it has to skip before it reaches the one that fails
+        if not F["md"] and r.random() < 0.7:
+            um = set()
+            F["md"] = [gen.gen_metadata(r, um) for _ in range(r.choice([1, 2]))]
+        natural = ["bad_root_metadata", "bad_node_metadata", "collision_with_body"]
         yield {"trees": {"F": F, "R": R, "O": other}, "append": ap, "natural": natural, "maxk": 60 if tier == "quick" else 200}
 
 
@@ -103,25 +105,48 @@ def run_both(drv, case):
                     legit.add(p[-1])
         ap = case["append"]
 
-        def attempt(k):
+        fpaths = set(gen.tree_paths(case["trees"]["F"]))
+
+        def attempt(k, natural=None):
             rootR, idx = gen.build_tree(case["trees"]["R"])
-            if case["natural"] == "bad_metadata" and k is None:
+            a = ap
+            if natural is not None:
+                a = {"target": [], "mode": "a", "tree": True, "emdpath": None}      # whole-root plain append
+            if natural == "bad_root_metadata":
+                # the runtime root holds what the file's root holds (entries the append skips), then one it cannot store
+                rootF2, _ = gen.build_tree(case["trees"]["F"])
+                for key in list(rootF2._metadata.keys()):
+                    if key not in rootR._metadata:
+                        rootR.metadata = rootF2._metadata[key]
+                rootR.metadata = emdfile.Metadata(name="zz_bad", data={"fine": 1, "x": {1, 2}})
+            if natural == "bad_node_metadata":
                 # an unsupported value deep in the runtime tree
                 paths = [p for p in idx if p]
                 tgt = idx[sorted(paths)[-1]] if paths else rootR
                 tgt.metadata = emdfile.Metadata(name="zz_bad", data={"x": {1, 2}})
-            if case["natural"] == "collision" and k is None:
-                for p, o in idx.items():
-                    if isinstance(o, emdfile.Array) and p:
-                        o.tree(emdfile.Node(name="data"))
+            if natural == "collision_with_body":
+                # a new child whose name is that of a dataset / group the node's own body holds in the file
+                done = False
+                for p in sorted(idx):
+                    if not p or p not in fpaths:
+                        continue
+                    body = [b for b, _ in before[("R0",) + p]["b"] if b != "metadatabundle"]
+                    used = set(idx[p]._branch._dict.keys())
+                    body = [b for b in body if b not in used]
+                    if body:
+                        idx[p].tree(emdfile.Node(name="zz_new"))
+                        idx[p].tree(emdfile.Node(name=body[0]))
+                        done = True
                         break
+                if not done:
+                    return None, None, None
             work = os.path.join(d, "work.h5")
             shutil.copyfile(base, work)
             inj = faults.Injector(fail_at=k)
             exc = None
             try:
                 with common.quiet(), faults.inject(inj):
-                    emdfile.save(work, idx[tuple(ap["target"])], mode=ap["mode"], tree=ap["tree"], emdpath=ap["emdpath"])
+                    emdfile.save(work, idx[tuple(a["target"])], mode=a["mode"], tree=a["tree"], emdpath=a["emdpath"])
             except Exception as e:
                 exc = e
             return work, inj, exc
@@ -130,14 +155,15 @@ def run_both(drv, case):
         total = inj0.count
         over = ap["mode"] in ("ao", "oa", "o+", "+o", "appendover")
         rpaths = set(("R0",) + p for p in gen.tree_paths(case["trees"]["R"]))
-        points = [None] if case["natural"] else []
-        points += list(range(min(total, case["maxk"])))
-        for k in points:
-            work, inj, exc = attempt(k)
+        points = [(None, nat) for nat in (case["natural"] or [])]
+        points += [(k, None) for k in range(min(total, case["maxk"]))]
+        for k, nat in points:
+            work, inj, exc = attempt(k, nat)
             if exc is None:
                 continue
             after, w = node_table(work)
-            v = {"k": k, "what": (inj.log[k] if k is not None and k < len(inj.log) else "natural"), "over": over}
+            v = {"k": k if nat is None else nat, "what": (inj.log[k] if k is not None and k < len(inj.log) else nat),
+                 "over": over and nat is None}
             if after is None:
                 v["file_unreadable"] = True
                 verdicts.append(v); continue
